@@ -12,8 +12,13 @@ def sig_of(rej, scn):
         who = who.split(":")[0]
     fld = rej.get("fld") or []
     linked = "link" not in fld and any((x.get("S") or {}).get("L") for x in d.get("Cells") or [])
-    return "C18:%s:%s:%s%s%s" % (rej.get("why"), who, "+".join(fld), ":hyperlinked" if linked else "",
-                                 ":legacy" if d.get("Legacy") else "")
+    # :stalled = the scenario ran ParseStyledString with its parser held up after an ESC (descriptor field Stall)
+    # (one signature whatever field differs first: the schedule is the condition class)
+    if d.get("Stall") and who == "parse" and rej.get("why") == "consumer":
+        return "C18:consumer:parse:stalled"
+    return "C18:%s:%s:%s%s%s%s" % (rej.get("why"), who, "+".join(fld), ":hyperlinked" if linked else "",
+                                   ":legacy" if d.get("Legacy") else "",
+                                   ":joining-neighbours" if d.get("Kind") == "joining-neighbours" else "")
 
 
 def binding_selftest(c, specs, td, rejected):
@@ -98,9 +103,12 @@ def binding_selftest(c, specs, td, rejected):
 
 
 def drive_retry(c, drv, **kw):
-    """The library's string parser arms a 10 ms wall-clock timer after every ESC; on a badly overloaded machine it can
-    fire inside a string and kill the driver process (send on closed channel, C08's subject). Scenarios are
-    deterministic, so simply run the driver again."""
+    """The library's input parser arms a 10 ms wall-clock timer after every ESC; on a badly overloaded machine it can
+    fire inside a string and (before C08's repairs) kill the driver process (send on closed channel). Scenarios are
+    deterministic, so simply run the driver again. (That timer firing inside ParseStyledString is itself a C18
+    defect - family stalled-parse provokes it deterministically; until notes/proposed-fixes/c18b-1.diff is in the
+    repository a loaded machine can also produce it in any other scenario, as C18:consumer:parse:*, which
+    confirm() then reports only if it happens again in the re-run.)"""
     import vcheck
     for attempt in range(3):
         try:
@@ -118,8 +126,14 @@ def main(c):
     specs = c.stage_specs("term", "codec")
     c.assumptions += [
         "harness lexer (ECMA-48 tokenizer) and uniseg grapheme segmentation are trusted base",
-        "domain: cells whose graphemes are single printable clusters that segment back from their concatenation "
-        "(a cell with an empty grapheme has no representation in a string); widths are not part of the property",
+        "domain: cells whose graphemes are single printable clusters (a cell with an empty grapheme has no "
+        "representation in a string); widths are not part of the property. Neighbouring cells whose texts would join "
+        "into one cluster when written back to back are judged for the two codecs (family joining-neighbours: a "
+        "control sequence between two texts is a cluster boundary, UAX #29 GB4/GB5); the random families draw "
+        "sequences that segment back from their concatenation",
+        "what a string means does not depend on how the goroutines the library starts to parse it are scheduled: "
+        "family stalled-parse holds the parser of ParseStyledString up after an ESC (library hook points of the "
+        "parser loop, build tag verif) for longer than the library's Escape-key delay",
         "hyperlinked cells (codecs only): graphemes, colours, attributes and underline must come back through the "
         "producer's own parser and the string must not leave a hyperlink open; whether the link itself comes back, and "
         "what the other consumers make of a hyperlink control string, is not demanded",
@@ -161,7 +175,8 @@ def main(c):
         rule="scenario = one producer (EncodeCells | StyledString.Encode | renderer of a real Vaxis) x one cell sequence "
              "(style chains covering every ordered attribute-mask pair, every ordered pair of colour-class triples, "
              "underline style x colour pairs, the whole palette; hyperlink-state pairs beside style changes (codecs); "
-             "random Unicode sequences incl. empty and multi-buffer ones; colon and legacy-semicolon spelling; capability fallbacks), or 50 arbitrary parameter lists for the "
+             "random Unicode sequences incl. empty and multi-buffer ones; neighbours whose texts would join into one cluster; "
+             "ParseStyledString with its parser held up after an ESC; colon and legacy-semicolon spelling; capability fallbacks), or 50 arbitrary parameter lists for the "
              "three consumers; the producer's lexed output is interpreted by SGR!Apply and must equal the input cells, "
              "end at the default pen with no hyperlink open and be read identically by ParseStyledString, NewStyledString and the emulator; "
              "distinct = distinct scenario descriptor; pair coverage is measured by the driver (coverage.c18)")
